@@ -30,6 +30,11 @@ TEXT = {
     'C09': ('Every snapshot is checked when it is taken (state handed to the serializer = model state at that position, consumers included), every '
             'dump file on disk is decoded after every step and at every restart (never torn, state = model at its index), every install/load is '
             'followed by the C01 digest check; chunk sizes from 1 byte, transfers interrupted by drops and reconnects, kills during the dump write.', '6/C09'),
+    'C10': ('Membership requests (API and admin path, on any node, at any time) are mixed into adversarial schedules with the operator discipline '
+            'encoded in the adversary; after every step each node\'s member set is compared with the fold of the membership entries in its log over '
+            'its base configuration, leaders are checked for at most one uncommitted change and none before an own-term commit, majorities are '
+            'counted over the committing node\'s member set, and at rest all members must report the set the committed log defines; C01-C05 '
+            'oracles run unchanged.', '6/C10'),
     'C12': ('Commands that raise deterministically (user method and documented battery errors) are mixed into adversarial runs with restarts from '
             'the journal; a re-executed position, a stalled applied index (C05 stuck oracle), diverging digests (C01 oracle, model swallows the same '
             'exception) or a wrong/duplicate callback (C02 oracle) is a violation.', '6/C12'),
@@ -52,6 +57,7 @@ TECH = {
     'C06': 'runtime monitor over kill/restart executions: vouched-for entries vs reopened journal+dump, model replay per incarnation',
     'C07': 'runtime monitor: vote and term accounting across process incarnations',
     'C09': 'runtime monitor: snapshot/dump-file decoding vs reference model at the snapshot position, after every step',
+    'C10': 'runtime monitor: member set vs fold of the log after every step, change gate, agreement at rest, plus C01-C05 monitors',
     'C12': 'runtime monitor: re-execution / stall / divergence detection with raising commands in the workload',
     'C08': 'reference-model monitor + crash-point enumeration by file snapshots at every storage primitive',
     'C15': 'model-based runtime comparison with builtin containers (direct, snapshot round trip, replicated)',
@@ -96,7 +102,7 @@ def main():
             'add_only': True,
         },
         'engines': [
-            {'name': 'E1 clustersim', 'path': 'rv/clustersim.py', 'serves_properties': ['C01', 'C02', 'C03', 'C04', 'C05', 'C06', 'C07', 'C09', 'C12', 'C18', 'C20'],
+            {'name': 'E1 clustersim', 'path': 'rv/clustersim.py', 'serves_properties': ['C01', 'C02', 'C03', 'C04', 'C05', 'C06', 'C07', 'C09', 'C10', 'C12', 'C18', 'C20'],
              'kind_free_text': 'real SyncObj/journal/serializer per node on a simulated message-level transport under virtual time; monitors after every step'},
             {'name': 'E3 journalfuzz', 'path': 'rv/journalfuzz.py', 'serves_properties': ['C08'],
              'kind_free_text': 'FileJournal vs list model with kill-point enumeration by file snapshots; SIGKILL stress'},
